@@ -7,12 +7,17 @@ import (
 	"math/rand"
 	"os"
 	"sort"
+	"strings"
+	"sync/atomic"
+	"time"
 
 	"github.com/btcsuite/btcd/btcutil"
 	"github.com/btcsuite/btcd/chaincfg/chainhash"
 	"github.com/btcsuite/btcd/wire"
+	"github.com/btcsuite/btclog"
 	"github.com/btcsuite/btcwallet/chain"
 	"github.com/btcsuite/btcwallet/waddrmgr"
+	"github.com/btcsuite/btcwallet/wallet"
 	"github.com/btcsuite/btcwallet/walletdb"
 	"github.com/btcsuite/btcwallet/wtxmgr"
 
@@ -547,7 +552,47 @@ func runEvolution(r *evid.Run, dir string, cs int64) {
 				what += " + block connected during the startup rescan"
 				e.stats["blocks-during-rescan"]++
 			}
-			if err := e.open(); err != nil {
+			// a transient backend failure during the start-up synchronisation (one
+			// FilterBlocks request of the recovery fails): the wallet retries, and the
+			// retry must get through
+			faulted := false
+			if e.window > 0 && afterRescanDone == nil && ch.DuringRescan == nil && rg.Intn(3) == 0 {
+				var once int32
+				ch.FilterHook = func(int) error {
+					if atomic.CompareAndSwapInt32(&once, 0, 1) {
+						return errors.New("injected transient FilterBlocks failure")
+					}
+					return nil
+				}
+				faulted = true
+				what += " + one failing FilterBlocks request during the start-up recovery"
+			}
+			best0, fails0 := ch.BestCalls(), atomic.LoadInt64(&syncFailures)
+			openDone := make(chan error, 1)
+			go func() { openDone <- e.open() }()
+			var err error
+		waitOpen:
+			for {
+				select {
+				case err = <-openDone:
+					break waitOpen
+				case <-time.After(50 * time.Millisecond):
+					// decided on logical steps: one synchronisation attempt asks for the best
+					// block a handful of times; thousands of calls are a retry storm
+					n, fl := ch.BestCalls()-best0, atomic.LoadInt64(&syncFailures)-fails0
+					if n > 3000 || fl > 4000 {
+						ch.FilterHook = nil
+						h.Abandon()
+						e.fail("c15:sync-never-completes", fmt.Sprintf("restart (%s): the wallet keeps failing to synchronise and retrying (%d GetBestBlock calls and %d logged sync failures in this process since the restart; last: %s)", what, n, fl, lastSyncFailure.Load()))
+						return
+					}
+				}
+			}
+			ch.FilterHook = nil
+			if faulted {
+				e.stats["restarts-with-a-transient-backend-failure"]++
+			}
+			if err != nil {
 				if errors.Is(err, wh.ErrNotSynced) {
 					r.Inconclusive("resync watchdog")
 					return
@@ -579,7 +624,26 @@ func runEvolution(r *evid.Run, dir string, cs int64) {
 	}
 }
 
+// syncFailures counts the wallet package's "unable to synchronize, trying again"
+// log lines of this process (a logical step counter for retry storms).
+var syncFailures int64
+var lastSyncFailure atomic.Value
+
+type failCounter struct{}
+
+func (failCounter) Write(p []byte) (int, error) {
+	if strings.Contains(string(p), "Unable to synchronize wallet to chain") {
+		atomic.AddInt64(&syncFailures, 1)
+		lastSyncFailure.Store(strings.TrimSpace(string(p)))
+	}
+	return len(p), nil
+}
+
 func main() {
+	lastSyncFailure.Store("")
+	lg := btclog.NewBackend(failCounter{}).Logger("WLLT")
+	lg.SetLevel(btclog.LevelError)
+	wallet.UseLogger(lg)
 	r := evid.New(P, "exploration")
 	r.Rule("(wallets are opened with a recovery window of 0, 3 or 250 -- the daemon always uses 250 -- chosen per evolution) generated chain evolutions fed to a complete wallet.Wallet through an in-memory chain.Interface (both delivery styles: btcd RelevantTx+BlockConnected, bitcoind/neutrino FilteredBlockConnected+BlockConnected): extensions by 1..5 blocks, reorgs of depth 1..12 within the stored window (new branch equal or longer), wallet payments placed in the losing branch, re-included at other heights of the winning branch or left unconfirmed, unconfirmed payments, repeated BlockConnected(tip), repeated / stale / unknown-hash BlockDisconnected (also re-delivered half-way through a reorg: after all disconnects, or between two instalments of the new branch, where the synced-to block must already be a best-chain block), restarts with the chain unchanged / extended / reorganised while the wallet was stopped, a block connected while the startup rescan is still running, and a reorg of payment-free tip blocks (depth 1..3, longer new branch) delivered while the startup rescan is still running, and a reorg delivered as the very next notifications after RescanFinished. After EVERY step (deterministic two-no-op barrier) the backend's best chain is the oracle: SyncedTo = tip (height and hash), BlockHash(h) = best-chain hash for every stored height up to the tip, every transaction reported with a block names a best-chain block that contains it, every best-chain payment is reported confirmed, CalculateBalance(1) and (0) equal the backend ledger. Non-trivial = evolution with at least one reorg; distinct = distinct step sequences.")
 	r.Trusted("fakechain (harness) as the definition of the best chain")
